@@ -145,12 +145,12 @@ MUTANTS = {
     "c09-incoh-eager": ("pulsarbat/transforms/dedispersion.py", "    x = np.stack([z.data[j : j + N, i] for i, j in enumerate(delays)], axis=1)", "    x = np.stack([np.asarray(z.data[j : j + N, i]) for i, j in enumerate(delays)], axis=1)", ["C09"]),
     "c09-ufunc-eager": ("pulsarbat/core.py", "        in_arr = tuple((i.data if isinstance(i, Signal) else i) for i in inputs)", "        in_arr = tuple((np.asarray(i.data) if isinstance(i, Signal) else i) for i in inputs)", ["C09"]),
     "c09-freqshift-arange-chunks": ("pulsarbat/transforms/transforms.py", "        n = da.arange(len(z), chunks=(-1,))", "        n = da.arange(len(z), chunks=(max(len(z) // 2, 1),))", ["C09"]),
-    "c09-rechunk-noop": ("pulsarbat/core.py", "        x = dask.array.asanyarray(self.data)\n        return type(self).like(self, x.rechunk(chunks, **kwargs))", "        x = self.data\n        return type(self).like(self, x.rechunk(chunks, **kwargs) if hasattr(x, 'rechunk') else x)", ["C09"]),
+    "c09-rechunk-noop": ("pulsarbat/core.py", "        x = dask.array.asanyarray(self.data)\n        if x.size:\n            x = x.rechunk(chunks, **kwargs)\n", "        x = self.data\n        if x.size and hasattr(x, 'rechunk'):\n            x = x.rechunk(chunks, **kwargs)\n", ["C09"]),
     "c08-phasepol-domain": ("pulsarbat/pulsar/predictor.py", '        polynomial = self["poly"][index](Polynomial([dt, 1]))\n        a = int(polynomial(0) // 1)\n\n        return polynomial - a, pb.Phase(rphase + a)', '        polynomial = self["poly"][index].copy()\n        polynomial.domain -= dt\n        a = int(polynomial(0) // 1)\n\n        return (polynomial - a).convert(), pb.Phase(rphase + a)', ["C08"]),
     "c08-domain": ("pulsarbat/pulsar/predictor.py", "poly=Polynomial(coeffs, domain=[-60, +60]).convert(),", "poly=Polynomial(coeffs, domain=[-30, +30]).convert(),", ["C08"]),
     "c08-f0-minutes": ("pulsarbat/pulsar/predictor.py", "coeffs[1] += float(f0) * 60", "coeffs[1] += float(f0)", ["C08"]),
     "c08-frac-dropped": ("pulsarbat/pulsar/predictor.py", '                coeffs[0] += float("0." + r_frac)\n', "", ["C08"]),
-    "c08-searchsorted-tmid": ("pulsarbat/pulsar/predictor.py", "index = np.searchsorted(span_ends.mjd, times.mjd)", 'index = np.searchsorted(self["tmid"].mjd, times.mjd)', ["C08"]),
+    "c08-searchsorted-tmid": ("pulsarbat/pulsar/predictor.py", "index = np.searchsorted(span_ends.mjd, getattr(times, span_ends.scale).mjd)", 'index = np.searchsorted(self["tmid"].mjd, getattr(times, span_ends.scale).mjd)', ["C08"]),
     "c08-deriv-n": ("pulsarbat/pulsar/predictor.py", '            f = self["poly"][index].deriv(n + 1)(dt)\n        else:', '            f = self["poly"][index].deriv(n)(dt) if n else self["poly"][index].deriv(1)(dt)\n        else:', ["C08"]),
     "c08-merge-tol": ("pulsarbat/pulsar/predictor.py", "start.isclose(next_end, 1 * u.ms)", "start.isclose(next_end, 1 * u.min)", ["C08"]),
     "c08-ncoeff-floor": ("pulsarbat/pulsar/predictor.py", "for _ in range(-(int(ncoeff) // -3)):", "for _ in range(int(ncoeff) // 3):", ["C08"]),
